@@ -28,7 +28,7 @@ m = {
     "setup_cmd": "python3 check.py --setup",
     "hooks": {
         "guard": "verif_hooks",
-        "enable": "cargo feature `verif_hooks` of the debruijn crate; the harness crate depends on /repo with features=[\"verif_hooks\"]",
+        "enable": "cargo features `verif_hooks` (and `verif_index_layout`, which implies it: the C19 slot-layout accessor) of the debruijn crate; the harness crate depends on /repo with features=[\"verif_hooks\"] and, through its default feature `layout`, `verif_index_layout`",
         "baseline_off_cmd": "cd /repo && cargo test --workspace --no-fail-fast --offline",
         "source_commits": HOOK_COMMITS,
         "add_only": True,
